@@ -58,7 +58,7 @@ def check(ctx):
                    f"pair ({py}, {nb}) is not (python, python_numba): with select() indexing by a bool the wrong implementation runs",
                    clause="both implementations of every helper")
             names = {repo.dotted(g["closure"], c.args[0]) for _, c in calls_in(g["closure"]) if norm(c.func) == "select" and c.args}
-            if (py, nb) in seen or py == "generic":
+            if (py, nb) in seen or py == "generic" or not ok:
                 continue
             seen.add((py, nb))
             pf, nf = repo.functions.get(f"{A.AGG}.{py}"), repo.functions.get(f"{A.AGG}.{nb}")
